@@ -238,5 +238,9 @@ func init() {
 			Rule: "patterns/inputs as leg N (inputs ≤ 12 runes, valid UTF-8; the \\G origin anywhere in the input for half of the cases) plus a hand-made corpus (each anchor bit in both directions with the origin inside the input, \\Z's two positions, short inputs) and a small-scope exhaustive part: 38 patterns chosen to reach every path and helper, each on ALL inputs up to 4 (thorough: 6) runes over 2-5 runes taken from the pattern, \\G patterns with every origin; per case the facts findFirstCharDefault reads of the compiled program (anchor bits, Boyer-Moore prefix and case flag, find mode with its prefixes / distances / fixed-distance sets / literal after loop / landmark chain, first-character set, MinRequiredLength; every character set as a membership table over the runes of the input, unicode.ToLower as a table) go to the Lean driver, which runs the model of findFirstCharDefault (Model/Finders.lean) from every position 0..len; the real finder is called at every position through VerifFindFirstChar; (found, position left) and the dispatch path must agree. non-trivial = non-empty input; histogram: finder=<path>:<find mode> per case",
 			N: c.N(4000, 200000), Corpus: append(append([]engCase{}, fmCorpus...), fmDirected(c.N(4, 6))...), Gen: fmGen(g3), Check: c03FindersCheck, Batch: 500,
 		})
+		// leg Bm (c03bm.go): the Boyer-Moore prefix against its model and a naive search
+		c03RegisterBm(c, 1)
+		// leg L (c04loops.go): landmark chain / literal after the leading loop (a fifth of C04's cases)
+		c04RegisterLoops(c, 5)
 	})
 }
